@@ -342,6 +342,11 @@ class CallsMixin:
             return T("call", name, (recv,), ty="str")
         if name == "isdigit":
             return T("call", "isdigit", (recv,), ty="bool")
+        if name == "get" and recv.k == "dictlit":
+            for k_, v_ in recv.a[0]:
+                if k_ == args[0]:
+                    return v_
+            return args[1] if len(args) > 1 else NONE
         if name in ("get",) and recv.ty == "dict":
             return T("call", "dictget", (recv, args[0]))
         if name == "items":
